@@ -272,6 +272,24 @@ def b_other(ctx):
             want = inner[['x', 'y', 'z']].to_numpy() @ g + c
             if not np.allclose(np.asarray(mapped['f'], dtype=float), want, rtol=1e-9, atol=1e-9):
                 ctx.fail(f'C19:mapping-linear:node-ids-{nn}', 'linear field not reproduced at interior points', {'mesh': size, 'node_ids': nn})
+            # target sets that are degenerate as a point cloud: a single interior point, points of a section plane z = const, points on a line
+            # (added after seed C19-b chose the interpolation columns from the dimension of the TARGET set)
+            targets = {'single-point': [(0.37, 0.52, 0.61)], 'section-plane': [(0.3, 0.4, 0.43), (1.2, 0.7, 0.43), (0.9, 1.3, 0.43), (1.6, 0.2, 0.43)],
+                       'line': [(0.5, 0.6, 0.2), (0.5, 0.6, 0.7), (0.5, 0.6, 1.4)]}
+            for tname, pts in targets.items():
+                pts = [p_ for p_ in pts if all(0 < p_[k] < size[k] for k in range(3))]
+                if not pts:
+                    continue
+                tgt = pd.DataFrame(pts, columns=['x', 'y', 'z'], index=pd.MultiIndex.from_tuples([(1, q + 1) for q in range(len(pts))], names=['element_id', 'node_id']))
+                ctx.case(True, key=('mapping', size, nn, tname))
+                try:
+                    mp = tgt.meshmapper.process(src, 'f')
+                    w2 = tgt[['x', 'y', 'z']].to_numpy() @ g + c
+                    if not np.allclose(np.asarray(mp['f'], dtype=float), w2, rtol=1e-9, atol=1e-9):
+                        ctx.fail(f'C19:mapping-linear:{tname}', f'linear field not reproduced on the target set {tname} {pts} (mesh {size}): got {np.asarray(mp["f"]).tolist()}, want {w2.tolist()}',
+                                 {'mesh': size, 'node_ids': nn, 'targets': pts})
+                except Exception as e:   # noqa
+                    ctx.fail(f'C19:mapping:raises:{tname}:{type(e).__name__}', f'meshmapper raises {type(e).__name__}: {e} on the target set {tname}', {'mesh': size, 'targets': pts})
         except Exception as e:   # noqa
             ctx.fail(f'C19:mapping:raises:{type(e).__name__}', f'meshmapper raises {type(e).__name__}: {e}', {'mesh': size, 'node_ids': nn})
         # hot spots
